@@ -31,6 +31,7 @@ import (
 	"syscall"
 	"testing"
 	"time"
+	"unsafe"
 
 	"github.com/klauspost/compress/s2"
 	"github.com/klauspost/compress/zstd"
@@ -590,6 +591,10 @@ type c19Art struct {
 	Op       string      `json:"op,omitempty"`
 	Pos      int         `json:"pos,omitempty"`
 	Val      int         `json:"val,omitempty"`
+	Setup    string      `json:"setup,omitempty"`   // history: default | userpool
+	History  []c19Op     `json:"history,omitempty"` // history: the operation sequence
+	Step     int         `json:"step,omitempty"`    // history: index of the operation after which the oracle failed
+	Victim   int         `json:"victim,omitempty"`  // history: index of the operation whose result / input was damaged
 }
 
 type c19Dec struct {
@@ -621,6 +626,10 @@ type c19H struct {
 	outcome map[string]int64
 	cur     []atomic.Pointer[c19Running]
 	ws      []*c19W // per-worker state, reused across phases (keeps CLI batch buffers warm)
+	seen    [64]struct {
+		mu sync.Mutex
+		m  map[uint64]struct{}
+	}
 	infoMu  sync.Mutex
 	info    map[string][]any
 }
@@ -646,6 +655,21 @@ func (h *c19H) note(k string, v any) {
 		h.info[k] = append(h.info[k], v)
 	}
 	h.infoMu.Unlock()
+}
+
+// firstSeen records k in a sharded set and reports whether it was new.
+func (h *c19H) firstSeen(k uint64) bool {
+	s := &h.seen[k&63]
+	s.mu.Lock()
+	if s.m == nil {
+		s.m = map[uint64]struct{}{}
+	}
+	_, ok := s.m[k]
+	if !ok {
+		s.m[k] = struct{}{}
+	}
+	s.mu.Unlock()
+	return !ok
 }
 
 func (h *c19H) mkDecs() {
@@ -904,23 +928,29 @@ func (w *c19W) rt(comp Compressor, cfgs []c19Cfg, flags []CompressFlag, p c19Pay
 		}
 	}
 	if used != CodecNone {
-		if err := c19Indep(used, out, data); err != nil {
-			h.viol("independent-"+c19CodecName(int(used)), "independent decoder rejects / differs on the compressor's output: "+err.Error(), art)
-		}
-		w.evals++
-		switch used {
-		case CodecZstd:
-			w.cliAdd("zstd", out, data, art)
-		case CodecLz4:
-			w.cliAdd("lz4", out, data, art)
-		case CodecGzip:
-			w.cliAdd("gzip", out, data, art)
-		}
+		w.cnt("rt_"+c19CodecName(int(used)), 1)
 		f := fnv.New64a()
 		f.Write([]byte{byte(used)})
 		f.Write(out)
-		h.r.DistinctHash(f.Sum64())
-		w.cnt("rt_"+c19CodecName(int(used)), 1)
+		// Byte-identical outputs of one codec (other levels, other preference
+		// lists) decode identically: the independent decoders see each distinct
+		// (codec, output) once. kgo's own Decompress above always runs.
+		if h.firstSeen(f.Sum64()) {
+			if err := c19Indep(used, out, data); err != nil {
+				h.viol("independent-"+c19CodecName(int(used)), "independent decoder rejects / differs on the compressor's output: "+err.Error(), art)
+			}
+			w.evals++
+			switch used {
+			case CodecZstd:
+				w.cliAdd("zstd", out, data, art)
+			case CodecLz4:
+				w.cliAdd("lz4", out, data, art)
+			case CodecGzip:
+				w.cliAdd("gzip", out, data, art)
+			}
+			h.r.DistinctHash(f.Sum64())
+			w.cnt("rt_distinct_outputs_"+c19CodecName(int(used)), 1)
+		}
 	} else {
 		w.cnt("rt_none_identity", 1)
 	}
@@ -988,7 +1018,7 @@ func (h *c19H) phaseRoundTrip(lits [][]byte, fam []c19PD, litCfgs, famCfgs, bigC
 		cfgs := []c19Cfg{j.cfg}
 		var keep, keepDef []byte
 		one := func(p c19Payload, d []byte) {
-			if j.cfg.Valid {
+			if j.cfg.Valid || len(d) == 2 { // the (unjudged) equality note skips the 65536 two-byte strings
 				w.rt(comp, cfgs, nil, p, d, nil)
 				return
 			}
@@ -1777,8 +1807,7 @@ func (h *c19H) phaseCrafts(crafts []c19Craft) {
 	accepted, acceptedOf := 0, 0
 	run := func(c c19Craft, dv int) {
 		art := func() c19Art { return c19Art{Kind: "hostile", Codec: int(c.Codec), Craft: c.Name} }
-		runtime.GC()
-		runtime.ReadMemStats(&ms0)
+		runtime.ReadMemStats(&ms0) // TotalAlloc is cumulative: no GC needed around the call
 		var out []byte
 		var err error
 		if c.DstLen > 0 {
@@ -1975,6 +2004,25 @@ func c19Replay(path string) int {
 	case "xerial":
 		h.mkDecs()
 		h.phaseXerial([]c19PD{{*a.Payload, a.Payload.bytes()}})
+	case "history":
+		hs := c19NewHist(h)
+		var seq []*c19Op
+		for _, o := range a.History {
+			op, err := hs.mkOp(o.Kind, o.Form, o.Dst, o.Payload)
+			if err != nil {
+				ev.InfraError("replay: %v", err)
+			}
+			seq = append(seq, op)
+		}
+		hs.hook()
+		var d Decompressor = DefaultDecompressor()
+		if a.Setup == "userpool" {
+			d = DefaultDecompressor(c19Pool{})
+		}
+		for i := 0; i < 50 && h.nviol.Load() == 0; i++ { // content damage needs the pool to hand the same buffer out again
+			hs.run(a.Setup, d, seq)
+		}
+		hs.unhook()
 	case "hostile":
 		if a.Max == 0 {
 			a.Max = c19SmallMax
@@ -2064,7 +2112,7 @@ func TestVerifC19(t *testing.T) {
 	}
 	debug.SetGCPercent(gogc)
 
-	r.Rule("Phase A (production maximum): every byte string of length <=2, and run / period-2 / period-3 / counter / LCG-noise payloads of lengths 0-4, 15-17, 255-257, 65535-65537, 1 MiB, through DefaultCompressor for every codec x every level the libraries accept plus out-of-range levels; every codec preference list (length <=3 with repetition, all permutations of 4 and 5) x flag lists incl. CompressDisableZstd; xerial-framed snappy built by hand (chunk splits x two chunk encoders x header variants). Each output is decoded by both DefaultDecompressor variants (no pool / user byte pool) and by an independent decoder (stdlib gzip + hand-checked trailer, hand-written snappy block decoder, hand-written LZ4 frame decoder with xxh32 checksums, separately configured zstd decoder, and the zstd / lz4 / gzip CLIs over concatenated frames). Phase B (maxDecompressedSize shrunk to 1 MiB): every byte string of length <=2 (thorough <=3) raw and embedded after each codec's magic / header forms; every truncation and every single-byte substitution {00,01,7f,80,ff} (all 256 values near both ends) of valid outputs incl. xerial; crafted headers claiming huge sizes and real bombs, run sequentially with TotalAlloc measured. distinct_nontrivial counts distinct compressed outputs that round-tripped, distinct preference-list x flag combinations, distinct xerial frames, mutated bases, crafts, and distinct (codec, decompressor, family, outcome) classes of hostile inputs.")
+	r.Rule("Phase H (operation histories, run first and alone): every ordered sequence of 2 operations (thorough: also of 3 over a reduced 48-letter alphabet) over Decompress{none, gzip, raw snappy, xerial snappy with two header/chunkings, lz4, zstd} x 10 payload classes (3 B, 1000 B, 7679 B, 8191 B, 8193 B around the 8 KiB pooled buffer; compressible and LCG noise) and Compress{gzip, snappy, lz4, zstd, zstd-disabled->lz4} x {caller-owned dst, byteBuffers dst as sink.go} x the same payloads, on one decompressor (default pools, and user byte pool) and one set of compressors; every earlier result is kept and after every later operation re-compared with its snapshot, inputs re-compared with pristine copies, results checked pairwise for shared memory and against every buffer the internal byteBuffers pool ever created (New hook). Phase A (production maximum): every byte string of length <=2, and run / period-2 / period-3 / counter / LCG-noise payloads of lengths 0-4, 15-17, 255-257, 65535-65537, 1 MiB, through DefaultCompressor for every codec x every level the libraries accept plus out-of-range levels; every codec preference list (length <=3 with repetition, all permutations of 4 and 5) x flag lists incl. CompressDisableZstd; xerial-framed snappy built by hand (chunk splits x two chunk encoders x header variants). Each output is decoded by both DefaultDecompressor variants (no pool / user byte pool) and by an independent decoder (stdlib gzip + hand-checked trailer, hand-written snappy block decoder, hand-written LZ4 frame decoder with xxh32 checksums, separately configured zstd decoder, and the zstd / lz4 / gzip CLIs over concatenated frames). Phase B (maxDecompressedSize shrunk to 1 MiB): every byte string of length <=2 (thorough <=3) raw and embedded after each codec's magic / header forms; every truncation and every single-byte substitution {00,01,7f,80,ff} (all 256 values near both ends) of valid outputs incl. xerial; crafted headers claiming huge sizes and real bombs, run sequentially with TotalAlloc measured. distinct_nontrivial counts distinct compressed outputs that round-tripped, distinct preference-list x flag combinations, distinct xerial frames, mutated bases, crafts, and distinct (codec, decompressor, family, outcome) classes of hostile inputs.")
 	r.Assume(
 		"stdlib compress/gzip, hash/crc32 and the zstd/lz4/gzip command-line tools are correct decoders",
 		"the zstd cross-check inside the process uses klauspost's decoder with library-default options (a different configuration, not a different implementation); the zstd CLI is the independent implementation",
@@ -2091,6 +2139,9 @@ func TestVerifC19(t *testing.T) {
 	r.Set("skipped_cli_lz4", h.cli["lz4"] == "")
 	r.Set("skipped_cli_gzip", h.cli["gzip"] == "")
 	r.Set("cli_paths", h.cli)
+
+	// ---------------- phase H: operation histories (needs an untouched byteBuffers pool)
+	h.phaseHistory(thorough)
 
 	// ---------------- phase A: production maximum
 	r.Set("phaseA_max_decompressed_size", maxDecompressedSize)
@@ -2257,13 +2308,339 @@ func TestVerifC19(t *testing.T) {
 	if thorough {
 		depth = 3
 	}
-	r.Set("bound_completed", fmt.Sprintf("all payloads x %d configs (1 MiB: %d configs); %d preference lists x 6 flag lists; hostile strings to length %d in %d forms; %d mutation bases fully truncated/substituted; %d crafts", len(all), len(bigCfgs), h.counts["pref_lists"], depth, len(c19Forms()), len(bases), len(crafts)))
+	r.Set("bound_completed", fmt.Sprintf("all operation sequences of length 2 over the full history alphabet (thorough: and of length 3 over the reduced one) x 2 pool setups; all payloads x %d configs (1 MiB: %d configs); %d preference lists x 6 flag lists; hostile strings to length %d in %d forms; %d mutation bases fully truncated/substituted; %d crafts", len(all), len(bigCfgs), h.counts["pref_lists"], depth, len(c19Forms()), len(bases), len(crafts)))
 	r.Sample(map[string]any{"roundtrip": c19Art{Kind: "roundtrip", Payload: &fam[len(fam)-1].P, Cfgs: []c19Cfg{all[len(all)-1]}}})
 	r.Sample(map[string]any{"hostile_mutation": c19Art{Kind: "hostile", Codec: int(bases[0].codec), Base: &bases[0].art, Op: "subst", Pos: 3, Val: 0x80}})
 	r.Sample(map[string]any{"craft": crafts[len(crafts)/2].Name, "bytes": len(crafts[len(crafts)/2].In)})
 	r.Sample(map[string]any{"enum_form": c19Forms()[20].name, "prefix_hex": hex.EncodeToString(c19Forms()[20].pre)})
 	pprof.StopCPUProfile()
 	os.Exit(r.Write())
+}
+
+// ---------------------------------------------------------------- operation histories (who owns the bytes)
+//
+// A round trip is about values: a result that a later call silently
+// overwrites is not a round trip. This part runs every ordered sequence of
+// operations (depth 2, thorough also depth 3 over a reduced alphabet) on one
+// decompressor and one set of compressors, keeps EVERY earlier result, and
+// after every later operation (a) re-compares each kept result with the
+// snapshot taken when it was returned, (b) re-compares each input with its
+// pristine copy, (c) requires that no two results share memory and (d) that
+// no result lies inside a buffer of the client's internal byteBuffers pool
+// (every buffer that pool ever hands out is registered through its New hook,
+// so (d) does not depend on which P the goroutine happens to run on).
+// Documented aliasing is exempt: CodecNone returns its input; Compress may
+// return (part of) the dst buffer the CALLER passed.
+// Runs alone on one goroutine: the registry is read between operations.
+
+type c19Op struct {
+	Kind    string     `json:"op"`            // decompress | compress
+	Form    string     `json:"form"`          // decompress: none gzip snappy xerial-v1 xerial-alt lz4 zstd; compress: gzip snappy lz4 zstd zstd-disabled
+	Dst     string     `json:"dst,omitempty"` // compress: own (fresh caller-owned buffer, result kept as returned) | pooled (byteBuffers Get/Put exactly as sink.go; result copied out before Put)
+	Payload c19Payload `json:"payload"`
+
+	in    []byte // decompress: compressed input; compress: the payload
+	want  []byte // decompress: the payload
+	codec CompressionCodecType
+	comp  int
+	flags []CompressFlag
+	deep  bool // member of the reduced depth-3 alphabet
+}
+
+type c19Hist struct {
+	h        *c19H
+	comps    []Compressor // gzip, snappy, lz4, zstd, [zstd lz4]
+	registry []*bytes.Buffer
+	origNew  func() any
+	seqs     int64
+	ops      int64
+}
+
+var c19HistCompForms = []string{"gzip", "snappy", "lz4", "zstd", "zstd-disabled"}
+
+func c19NewHist(h *c19H) *c19Hist {
+	hs := &c19Hist{h: h}
+	for _, cfgs := range [][]c19Cfg{{{Codec: 1, NoLevel: true}}, {{Codec: 2, NoLevel: true}}, {{Codec: 3, NoLevel: true}}, {{Codec: 4, NoLevel: true}}, {{Codec: 4, NoLevel: true}, {Codec: 3, NoLevel: true}}} {
+		c, err, pan := c19NewCompressor(cfgs)
+		if err != nil || pan != nil || c == nil {
+			ev.InfraError("history: compressor %v: %v %v", cfgs, err, pan)
+		}
+		hs.comps = append(hs.comps, c)
+	}
+	return hs
+}
+
+// hook registers every buffer the client's byteBuffers pool creates from now on.
+func (hs *c19Hist) hook() {
+	hs.origNew = byteBuffers.New
+	byteBuffers.New = func() any {
+		b := hs.origNew().(*bytes.Buffer)
+		hs.registry = append(hs.registry, b)
+		return b
+	}
+}
+
+func (hs *c19Hist) unhook() { byteBuffers.New = hs.origNew }
+
+// mkOp prepares one alphabet letter. Decompress inputs are made by the
+// harness's own encoders / stdlib / a separate compressor instance, cloned.
+func (hs *c19Hist) mkOp(kind, form, dst string, p c19Payload) (*c19Op, error) {
+	d := p.bytes()
+	op := &c19Op{Kind: kind, Form: form, Dst: dst, Payload: p}
+	if kind == "compress" {
+		op.in = d
+		for i, f := range c19HistCompForms {
+			if f == form {
+				op.comp = i
+				op.codec = CompressionCodecType(i + 1)
+				if f == "zstd-disabled" {
+					op.codec = CodecLz4
+					op.flags = []CompressFlag{CompressDisableZstd}
+				}
+				return op, nil
+			}
+		}
+		return nil, fmt.Errorf("unknown compress form %q", form)
+	}
+	op.want = d
+	viaKgo := func(codec int) ([]byte, error) {
+		c, err, pan := c19NewCompressor([]c19Cfg{{Codec: codec, NoLevel: true}})
+		if err != nil || pan != nil || c == nil {
+			return nil, fmt.Errorf("prep compressor: %v %v", err, pan)
+		}
+		out, used, pan := c19Compress(c, new(bytes.Buffer), d, nil)
+		if pan != nil || int(used) != codec {
+			return nil, fmt.Errorf("prep compress: %v %v", used, pan)
+		}
+		return bytes.Clone(out), nil
+	}
+	var err error
+	switch form {
+	case "none":
+		op.codec, op.in = CodecNone, d
+	case "gzip":
+		op.codec, op.in = CodecGzip, bytes.Clone(c19Gzip(d))
+	case "snappy":
+		op.codec, op.in = CodecSnappy, s2.EncodeSnappy(nil, d)
+	case "xerial-v1":
+		op.codec, op.in = CodecSnappy, c19XerFrame(d, c19Xer{"whole", "s2", "0000000100000001"})
+	case "xerial-alt": // other version/compat words, two chunks
+		op.codec, op.in = CodecSnappy, c19XerFrame(d, c19Xer{"tail1", "lit", "0000000200000002"})
+	case "lz4":
+		op.codec = CodecLz4
+		op.in, err = viaKgo(3)
+	case "zstd":
+		op.codec = CodecZstd
+		op.in, err = viaKgo(4)
+	default:
+		err = fmt.Errorf("unknown decompress form %q", form)
+	}
+	return op, err
+}
+
+func c19HistPayloads() (all, deepDec, deepComp []c19Payload) {
+	for _, n := range []int{3, 1000, 7679, 8191, 8193} { // tiny, ~1 KiB, cap-512 (no ReadFrom growth), just under / just over the 8 KiB pooled capacity
+		all = append(all, c19Payload{Kind: "p3", A: 0x61, B: 0x62, C: 0x63, N: n}, c19Payload{Kind: "lcg", Seed: 7, N: n})
+	}
+	deepDec = []c19Payload{all[1], all[2], all[7], all[8]} // 3 lcg, 1000 p3, 8191 lcg, 8193 p3
+	deepComp = []c19Payload{all[2], all[7]}                 // 1000 p3, 8191 lcg
+	return
+}
+
+func (hs *c19Hist) alphabet() []*c19Op {
+	all, deepDec, deepComp := c19HistPayloads()
+	in := func(ps []c19Payload, p c19Payload) bool {
+		for _, q := range ps {
+			if q == p {
+				return true
+			}
+		}
+		return false
+	}
+	var ops []*c19Op
+	for _, form := range []string{"none", "gzip", "snappy", "xerial-v1", "xerial-alt", "lz4", "zstd"} {
+		for _, p := range all {
+			op, err := hs.mkOp("decompress", form, "", p)
+			if err != nil {
+				ev.InfraError("history: %v", err)
+			}
+			op.deep = in(deepDec, p)
+			ops = append(ops, op)
+		}
+	}
+	for _, form := range c19HistCompForms {
+		for _, dst := range []string{"own", "pooled"} {
+			for _, p := range all {
+				op, _ := hs.mkOp("compress", form, dst, p)
+				op.deep = in(deepComp, p)
+				ops = append(ops, op)
+			}
+		}
+	}
+	return ops
+}
+
+func c19Overlap(a, b []byte) bool {
+	if len(a) == 0 || len(b) == 0 {
+		return false
+	}
+	pa, pb := uintptr(unsafe.Pointer(unsafe.SliceData(a))), uintptr(unsafe.Pointer(unsafe.SliceData(b)))
+	return pa < pb+uintptr(len(b)) && pb < pa+uintptr(len(a))
+}
+
+type c19Kept struct {
+	res, snap []byte
+	in        []byte
+	aliasIn   bool // documented: result is the input (codec none)
+	copied    bool // harness copied the result out before giving the dst back (pooled-dst compress)
+}
+
+// run executes one sequence and returns false at the first violation.
+func (hs *c19Hist) run(setup string, d Decompressor, seq []*c19Op) bool {
+	h := hs.h
+	hs.seqs++
+	art := func(step, victim int) c19Art {
+		a := c19Art{Kind: "history", Setup: setup, Step: step, Victim: victim}
+		for _, o := range seq {
+			a.History = append(a.History, *o)
+		}
+		return a
+	}
+	kept := make([]c19Kept, 0, len(seq))
+	for step, op := range seq {
+		hs.ops++
+		in := bytes.Clone(op.in) // every operation instance owns its input
+		var k c19Kept
+		k.in = in
+		switch op.Kind {
+		case "decompress":
+			got, err, pan := c19Decompress(d, in, op.codec)
+			if pan != nil || err != nil || !bytes.Equal(got, op.want) {
+				h.viol("history-roundtrip:"+op.Form, fmt.Sprintf("operation %d of the sequence: Decompress(%s) gave len=%d err=%v panic=%v, want the %d-byte payload", step, op.Form, len(got), err, pan, len(op.want)), art(step, step))
+				return false
+			}
+			k.res, k.aliasIn = got, op.codec == CodecNone
+		case "compress":
+			var buf *bytes.Buffer
+			if op.Dst == "pooled" {
+				buf = byteBuffers.Get().(*bytes.Buffer)
+				buf.Reset()
+			} else {
+				buf = new(bytes.Buffer)
+			}
+			out, used, pan := c19Compress(hs.comps[op.comp], buf, in, op.flags)
+			if pan != nil || used != op.codec || out == nil {
+				h.viol("history-compress:"+op.Form, fmt.Sprintf("operation %d: Compress gave codec=%d panic=%v", step, used, pan), art(step, step))
+				return false
+			}
+			if err := c19Indep(used, out, op.in); err != nil {
+				h.viol("history-compress:"+op.Form, fmt.Sprintf("operation %d: Compress output does not decode to the payload: %v", step, err), art(step, step))
+				return false
+			}
+			k.res = out
+			if op.Dst == "pooled" {
+				k.res, k.copied = bytes.Clone(out), true
+				byteBuffers.Put(buf)
+			}
+		}
+		k.snap = bytes.Clone(k.res)
+		kept = append(kept, k)
+		// the oracle, after every operation, over everything kept so far
+		for i := range kept {
+			ki := &kept[i]
+			if !bytes.Equal(ki.res, ki.snap) {
+				h.viol("history-result-overwritten:"+seq[i].Kind+":"+seq[i].Form, fmt.Sprintf("[%s] the result of operation %d (%s %s, %d bytes) changed after operation %d (%s %s): an earlier result was overwritten by a later call", setup, i, seq[i].Kind, seq[i].Form, len(ki.snap), step, op.Kind, op.Form), art(step, i))
+				return false
+			}
+			if !bytes.Equal(ki.in, seq[i].in) {
+				h.viol("history-input-mutated:"+seq[i].Kind+":"+seq[i].Form, fmt.Sprintf("[%s] the input of operation %d (%s %s) was modified by operation %d or earlier", setup, i, seq[i].Kind, seq[i].Form, step), art(step, i))
+				return false
+			}
+			if ki.copied {
+				continue
+			}
+			if i == len(kept)-1 {
+				for j := 0; j < i; j++ {
+					if !kept[j].copied && c19Overlap(ki.res, kept[j].res) {
+						h.viol("history-results-share-memory:"+seq[i].Kind+":"+seq[i].Form, fmt.Sprintf("[%s] the results of operations %d (%s %s) and %d (%s %s) overlap in memory", setup, j, seq[j].Kind, seq[j].Form, i, seq[i].Kind, seq[i].Form), art(step, j))
+						return false
+					}
+				}
+			}
+			if ki.aliasIn {
+				continue
+			}
+			for _, b := range hs.registry {
+				bb := b.Bytes()
+				if c19Overlap(ki.res, bb[:cap(bb)]) {
+					h.viol("history-result-in-internal-pool:"+seq[i].Kind+":"+seq[i].Form, fmt.Sprintf("[%s] the result of operation %d (%s %s, %d bytes) lies inside a buffer of the client's internal byteBuffers pool (seen after operation %d): the next user of the pool overwrites it", setup, i, seq[i].Kind, seq[i].Form, len(ki.res), step), art(step, i))
+					return false
+				}
+			}
+		}
+	}
+	return true
+}
+
+// phaseHistory must run before anything else has populated byteBuffers.
+func (h *c19H) phaseHistory(thorough bool) {
+	t0, c0 := time.Now(), c19CPU()
+	hs := c19NewHist(h)
+	ops := hs.alphabet()
+	hs.hook()
+	defer hs.unhook()
+	var deep []*c19Op
+	for _, o := range ops {
+		if o.deep {
+			deep = append(deep, o)
+		}
+	}
+	bad := map[string]int{}
+	for _, setup := range []string{"default", "userpool"} {
+		var d Decompressor
+		if setup == "default" {
+			d = DefaultDecompressor()
+		} else {
+			d = DefaultDecompressor(c19Pool{}) // hands out a fresh slice per call: results own distinct memory here too
+		}
+		h.cur[0].Store(&c19Running{time.Now(), "history " + setup})
+		seq := make([]*c19Op, 2)
+		for i, a := range ops {
+			for j, b := range ops {
+				seq[0], seq[1] = a, b
+				if !hs.run(setup, d, seq) {
+					bad[setup]++
+				}
+				h.r.Distinct(fmt.Sprint("hist2", setup, i, j))
+			}
+		}
+		if thorough {
+			seq = make([]*c19Op, 3)
+			for i, a := range deep {
+				for j, b := range deep {
+					for k, c := range deep {
+						seq[0], seq[1], seq[2] = a, b, c
+						if !hs.run(setup, d, seq) {
+							bad[setup]++
+						}
+						h.r.Distinct(fmt.Sprint("hist3", setup, i, j, k))
+					}
+				}
+			}
+		}
+		h.cur[0].Store(nil)
+	}
+	h.r.Evals(hs.ops)
+	h.r.Set("history_alphabet", len(ops))
+	h.r.Set("history_alphabet_depth3", map[bool]int{true: len(deep), false: 0}[thorough])
+	h.r.Set("history_sequences", hs.seqs)
+	h.r.Set("history_operations", hs.ops)
+	h.r.Set("history_pool_buffers_registered", len(hs.registry))
+	h.r.Set("history_sequences_violating", bad)
+	h.mu.Lock()
+	h.counts["phase_ms:history"] = time.Since(t0).Milliseconds()
+	h.counts["phase_cpu_ms:history"] = (c19CPU() - c0).Milliseconds()
+	h.mu.Unlock()
 }
 
 // ---------------------------------------------------------------- debugging aid (not part of the check)
